@@ -33,13 +33,13 @@ def pairs_of(t, v, key, cfg, out, repeated=False):
         out.append((key, v[1]))
         return
     for f, x in zip(S.flat_fields(t), v[2]):
-        pairs_of(f['t'], x, key + cfg['delim'] + f['n'], cfg, out, repeated=f['max'] > 1)
+        pairs_of(f['t'], x, key + cfg['delim'] + f.get('sub', f['n']), cfg, out, repeated=f['max'] > 1)
 
 
 def request_pairs(c, cfg):
     out = []
     for f, v in zip(c['args'], c['vals']):
-        pairs_of(f['t'], v, f['n'], cfg, out, repeated=f['max'] > 1)
+        pairs_of(f['t'], v, f.get('sub', f['n']), cfg, out, repeated=f['max'] > 1)
     # the KEYS are permuted; the pairs of one key (a repeated primitive) stay together in their order
     keys = []
     for k, _ in out:
